@@ -627,6 +627,10 @@ TEXT_EDITS = [
     ('evolution.py', "    return expm_krylov(\n        lambda x: apply_local_hamiltonian(L, R, W, x.reshape(A.shape)).reshape(-1),\n            A.reshape(-1), -dt, numiter, hermitian=True).reshape(A.shape)",
      "    v = expm_krylov(\n        lambda x: apply_local_hamiltonian(L, R, W, x.reshape(A.shape)).reshape(-1),\n            A.reshape(-1), -dt, numiter, hermitian=True)\n    Anew = v.reshape(A.shape)\n    return Anew",
      'silent', ['C08', 'C09'], '_local_hamiltonian_step: result held in local names before it is returned (benign)'),
+    ('bond_ops.py', 's = (s / w)**2', 's = s / w\n    s = s * s', 'silent', ['C12', 'C13'],
+     'retained_bond_indices: square written as a product of the normalised vector with itself (benign)'),
+    ('bond_ops.py', 's = (s / w)**2', 's = s / w\n    s = s * s / w', 'violation', ['C12', 'C13'],
+     'retained_bond_indices: norm divided out three times'),
     ('opchain.py', "        for oid in self.oids:\n            op = np.kron(op, opmap[oid])",
      "        for k in range(len(self.oids)):\n            op = np.kron(op, opmap[self.oids[k]])",
      'silent', ['C03', 'C17'], 'OpChain.as_matrix: index loop over the operator ids (benign)'),
